@@ -79,24 +79,35 @@ REL = {
 _P = {}
 
 
+DEFAULT_FMTRE = r"(.*?)\[(.+?)]|(.+$)"
+
+
 def setup():
     """imports the real pyrealb once per process tree; counts calls of Constituent.warn"""
-    if _P:
+    if _P.get("ready"):
         return _P
     core.ensure_repo_on_path()
     import pyrealb
     from pyrealb.Constituent import Constituent
     _P["py"] = pyrealb
     _P["warns"] = 0
-    orig = Constituent.warn
+    if not getattr(Constituent.warn, "_c17_counting", False):
+        orig = Constituent.warn
 
-    def counting_warn(self, *a):
-        _P["warns"] += 1
-        return orig(self, *a)
-    Constituent.warn = counting_warn
+        def counting_warn(self, *a):
+            _P["warns"] += 1
+            return orig(self, *a)
+        counting_warn._c17_counting = True
+        Constituent.warn = counting_warn
     _P["Constituent"] = Constituent
-    from harness.translate import date as tdate
-    _P["fmtRE"] = re.compile(tdate.lift_python()["fmtRE"])
+    try:
+        from harness.translate import date as tdate
+        pat = tdate.lift_python()["fmtRE"]
+    except Exception as e:  # noqa  (a TranslateError is already a broken tie; the oracle does not need the pattern)
+        pat = DEFAULT_FMTRE
+        _P["fmtRE_fallback"] = "%s: %s" % (type(e).__name__, str(e)[:200])
+    _P["fmtRE"] = re.compile(pat)
+    _P["ready"] = True
     return _P
 
 
@@ -764,23 +775,34 @@ def gen_block_ext(kind, params, seed):
 def run_lines(lines):
     """model answers of the driver for these lines (the model does not see `route`)"""
     sent = [{k: v for k, v in l.items() if k != "route"} for l in lines]
-    return core.run_driver(sent, META["driver"])
+    for attempt in range(6):
+        try:
+            return core.run_driver(sent, META["driver"])
+        except (core.Infra, OSError) as e:   # the executable is briefly absent while a concurrent lake build relinks it
+            if "not built" not in str(e) and not isinstance(e, OSError) or attempt == 5:
+                raise
+            import time
+            time.sleep(5)
 
 
 def work(block):
     kind, params, seed = block
     lines = gen_block_ext(kind, params, seed)
-    model = run_lines(lines)
+    if _ORACLE_ONLY:
+        lines = [l for l in lines if l["op"] == "date"]
+        model = [None] * len(lines)
+    else:
+        model = run_lines(lines)
     out = {"n": len(lines), "diffs": [], "fails": {}, "digests": [], "dist": {}, "samples": [], "kind": kind,
            "trivial": 0, "nfail": 0}
     dist = out["dist"]
     for l, m in zip(lines, model):
-        if "driver_error" in m:
+        if m is not None and "driver_error" in m:
             raise core.Infra("driver error: %s on %s" % (m["driver_error"], core.canon(l)[:200]))
         op = l["op"]
         a = IMPL[op](l)
-        m2, a2 = model_view(l, m, a)
-        if core.canon(m2) != core.canon(a2):
+        m2, a2 = model_view(l, m, a) if m is not None else (None, None)
+        if m is not None and core.canon(m2) != core.canon(a2):
             if len(out["diffs"]) < 20:
                 out["diffs"].append({"line": l, "model": m2, "impl": a2})
             dist["diffs"] = dist.get("diffs", 0) + 1
@@ -808,7 +830,7 @@ def work(block):
         else:
             dist[op] = dist.get(op, 0) + 1
             if op == "api":
-                r = "today" if m.get("today") else ("crash" if "err" in a else "text")
+                r = "today" if (m or {}).get("today") else ("crash" if "err" in a else "text")
                 dist["api:" + r + ":w%d" % min(a.get("w", 0), 3)] = dist.get("api:" + r + ":w%d" % min(a.get("w", 0), 3), 0) + 1
             if op == "cal" and a.get("valid"):
                 dist["cal:valid"] = dist.get("cal:valid", 0) + 1
@@ -818,8 +840,18 @@ def work(block):
     return out
 
 
+_ORACLE_ONLY = False
+
+
 def run(ctx, deep=False):
+    global _ORACLE_ONLY
     setup()
+    _ORACLE_ONLY = not os.path.exists(os.path.join(core.BIN, META["driver"]))
+    if _ORACLE_ONLY:
+        ctx.notes["oracle_only"] = "model driver not available: the direct oracle alone ran on the real library"
+    if _P.get("fmtRE_fallback"):
+        ctx.notes["fmtRE_fallback"] = _P["fmtRE_fallback"]
+    deep = deep or bool(getattr(ctx, "deep", False))   # a proof / the translator broke: thorough-size sweep at once
     blocks = build_blocks(ctx, deep)
     dist = {}
     fails = {}
